@@ -530,15 +530,16 @@ fn oracle_addr_list(c: &AddrList, obs: &mut Obs) -> Result<(), Violation> {
 
 fn addr_list() -> impl Strategy<Value = AddrList> {
     // addresses that share long prefixes / suffixes, repeats, and random ones
-    let addr = prop_oneof![
-        3 => (any::<u8>(), 0usize..32, any::<u8>()).prop_map(|(fill, pos, x)| {
+    let addr = proptest::strategy::Union::new_weighted(vec![
+        (3, (any::<u8>(), 0usize..32, any::<u8>()).prop_map(|(fill, pos, x)| {
             let mut a = [fill % 3; 32];
             a[pos] = x;
             a
-        }),
-        1 => gen::bytes32(),
-    ];
-    (proptest::collection::vec(addr, 0..8), gen::bytes32()).prop_map(|(addrs, salt)| AddrList { addrs, salt })
+        }).boxed()),
+        (1, gen::bytes32().boxed()),
+    ]);
+    let len = prop_oneof![8 => 0usize..8, 1 => 30usize..35, 1 => 62usize..67, 1 => 98usize..102, 1 => 8usize..130];
+    (len.prop_flat_map(move |n| proptest::collection::vec(addr.clone(), n)), gen::bytes32()).prop_map(|(addrs, salt)| AddrList { addrs, salt })
 }
 
 pub fn property() -> Property {
